@@ -56,6 +56,15 @@ fn copy_atomic(src: &Path, dst: &Path) -> std::io::Result<()> {
     std::fs::rename(&tmp, dst)
 }
 
+/// Remove `p`; a file that is already gone is fine, any other error stops the run
+/// (before the new common state is recorded, so the delete is retried next time).
+fn remove_if_present(p: &Path) -> std::io::Result<()> {
+    match std::fs::remove_file(p) {
+        Err(e) if e.kind() != std::io::ErrorKind::NotFound => Err(e),
+        _ => Ok(()),
+    }
+}
+
 pub fn run_bisync(
     root_a: &Path,
     root_b: &Path,
@@ -184,11 +193,11 @@ fn apply(
             }
         }
         Action::DeleteA => {
-            let _ = std::fs::remove_file(&pa);
+            remove_if_present(&pa)?;
             common.remove(rel);
         }
         Action::DeleteB => {
-            let _ = std::fs::remove_file(&pb);
+            remove_if_present(&pb)?;
             common.remove(rel);
         }
         Action::Conflict(ConflictKind::DeleteVsModify) => {
